@@ -104,6 +104,15 @@ template<size_t m, size_t n> static void own_2d() {
         if (sig) fail("outer_matvec_vecmat", "signal", m * 100 + n, front, sig); else ++n_ok;
         VH_GUARDED_CALL(({ *d.t = (*a.t)(all, all); (*d.t)(fseq<0,m>(), fseq<0,n>()) += (*a.t)(fseq<0,m>(), fseq<0,n>()); (*d.t)(seq(0, (int)m), seq(0, (int)n)) = *a.t; (*d.t)(all, fix<n - 1>) = (*a.t)(all, fix<0>); }), sig);
         if (sig) fail("views", "signal", m * 100 + n, front, sig); else ++n_ok;
+        // compile-time views between tensors whose rows are not vector aligned: plain copies (const and non-const source), blocks that
+        // start at row / column 1, a view inside an expression - no alignment-requiring access may be issued on such rows
+        VH_GUARDED_CALL(({ const Tensor<T,m,n>& ca = *a.t;
+            (*d.t)(fseq<0,m>(), fseq<0,n>()) = ca(fseq<0,m>(), fseq<0,n>());
+            (*d.t)(fseq<1,m>(), fseq<0,n>()) = ca(fseq<1,m>(), fseq<0,n>());
+            (*d.t)(fseq<0,m-1>(), fseq<1,n>()) = (*a.t)(fseq<1,m>(), fseq<0,n-1>());
+            (*d.t)(fseq<0,m>(), fseq<0,n>()) = (*a.t)(fseq<0,m>(), fseq<0,n>()) + ca(fseq<0,m>(), fseq<0,n>());
+            Tensor<T,m,n> e = ca(fseq<0,m>(), fseq<0,n>()) * (T)2; (*d.t) = e; }), sig);
+        if (sig) fail("fixed_views", "signal", m * 100 + n, front, sig); else ++n_ok;
         (void)sink;
     }
 }
